@@ -2,7 +2,8 @@
    classification of rejections; rejected imports leave the repository unchanged. *)
 From Coq Require Import List NArith ZArith Bool Lia.
 From Coq Require Import ZifyN ZifyNat ZifyBool.
-From Verif Require Import Common.Util Sched.Model BaseFee.Model Header.Rules Header.Proofs Validation.Body Validation.Catalogue.
+Ltac Zify.zify_post_hook ::= Z.div_mod_to_equations.
+From Verif Require Import Common.Util Sched.Model Sched.Proofs Sched.ProofsUpdates BaseFee.Model BaseFee.Proofs Header.Rules Header.Proofs Validation.Body Validation.Catalogue.
 Import ListNotations.
 Open Scope N_scope.
 
@@ -112,6 +113,31 @@ Proof.
 Qed.
 
 (* ---------------------------------------------------------------- proposer *)
+
+Lemma find_me_in' me ps mep : find_me me ps = Some mep -> In mep ps /\ p_addr mep = me.
+Proof. unfold find_me. intros H. apply find_some in H. destruct H as [H1 H2]. apply N.eqb_eq in H2. auto. Qed.
+
+(* IsTheTime = "after the parent, on the interval grid, and the signer owns that slot" (C05's is_the_time_iff) *)
+Lemma is_the_time_iff_owner k hsh pt T cs me mep t : 0 < T -> find_me me (props cs) = Some mep ->
+  sched_is_the_time k hsh pt T cs me t = true <->
+  pt < t /\ (t - pt) mod T = 0 /\ slot_owner k hsh pt T cs me t = Some me.
+Proof.
+  intros HT Hf. apply find_me_in' in Hf. destruct Hf as [Hin Ha].
+  assert (A : is_scheduled pt T (addrs (seq_of me (pks cs))) t me = true <->
+              pt < t /\ (t - pt) mod T = 0 /\
+              nth_error (addrs (seq_of me (pks cs))) (N.to_nat (slot_index pt T (N.of_nat (length (addrs (seq_of me (pks cs))))) t)) = Some me).
+  { apply is_scheduled_iff; [exact HT|].
+    assert (Hm : In me (addrs (seq_of me (pks cs)))).
+    { apply (me_in_seq me (pks cs) mep); [|exact Ha]. unfold pks. rewrite map_map. exact Hin. }
+    intros E. rewrite E in Hm. exact Hm. }
+  destruct k; cbn [sched_is_the_time slot_owner]; try exact A.
+  rewrite is_the_time_v1_iff. split.
+  - intros (H1 & H2 & p & Hw & Hp). rewrite Hw. cbn. rewrite Hp. auto.
+  - intros (H1 & H2 & H3). split; [exact H1|]. split; [exact H2|].
+    destruct (whose_turn hsh (actives_v1 me (props cs)) t) as [p|]; cbn in H3; [|discriminate].
+    exists p. split; [reflexivity|]. congruence.
+Qed.
+
 
 Definition proposer_rules (cfg : config) (pv : pview) (parent h : header) (s : N) (mep : proposer) : Prop :=
   let k := kind_of cfg pv (h_number parent + 1) in
@@ -391,10 +417,10 @@ Section Proofs.
     Catalogue.the_proposer pv b mep' -> mep' = mep.
   Proof. intros H1 H2 (s' & H3 & H4). rewrite H1 in H3. inversion H3; subst s'. congruence. Qed.
 
-  Theorem accept_cond_iff_rules cfg pv parent st0 b now :
+  Theorem accept_cond_iff_rules cfg pv parent st0 b now : 0 < c_interval cfg ->
     (exists st2 rcs, accept_cond cfg pv parent st0 b now st2 rcs) <-> all_rules cfg pv parent st0 b now.
   Proof.
-    split.
+    intros HT. split.
     - intros (st2 & rcs & Hf & Hh & s & mep & Hp & Hroot & Hb & stf & Hv & _).
       destruct Hh as (H1 & H2 & H3 & H4 & H5 & H6 & H7 & H8 & H9 & H10 & H11).
       destruct Hp as (P1 & P2 & P3 & P4 & P5).
@@ -423,7 +449,7 @@ Section Proofs.
       assert (R12 : rule_holds cfg pv parent st0 b now 12) by exact Hf.
       assert (R20 : rule_holds cfg pv parent st0 b now 20) by (exists mep; exact TP).
       assert (R21 : rule_holds cfg pv parent st0 b now 21).
-      { intros mep' T. apply U in T. subst mep'. rewrite Ha. exact P3. }
+      { intros mep' T. apply U in T. subst mep'. rewrite Ha. apply (is_the_time_iff_owner _ _ _ _ _ _ _ _ HT P2) in P3. apply P3. }
       assert (R22 : rule_holds cfg pv parent st0 b now 22).
       { intros mep' T. apply U in T. subst mep'. exact P4. }
       assert (R23 : rule_holds cfg pv parent st0 b now 23).
@@ -437,7 +463,8 @@ Section Proofs.
       assert (R36 : rule_holds cfg pv parent st0 b now 36) by exact B6.
       assert (R37 : rule_holds cfg pv parent st0 b now 37) by exact B7.
       assert (R40 : rule_holds cfg pv parent st0 b now 40) by (split; assumption).
-      assert (R41 : rule_holds cfg pv parent st0 b now 41) by (exists stf, rcs; exact TR).
+      assert (R41 : rule_holds cfg pv parent st0 b now 41).
+      { intros mep' T. apply U in T. subst mep'. exists stf, rcs. exact V1. }
       assert (R42 : rule_holds cfg pv parent st0 b now 42).
       { intros stf' rs' T. destruct (UR _ _ T) as [-> ->]. exact V3. }
       assert (R43 : rule_holds cfg pv parent st0 b now 43).
@@ -463,13 +490,15 @@ Section Proofs.
       pose proof (A 42) as H42. pose proof (A 43) as H43. pose proof (A 44) as H44. pose proof (A 45) as H45.
       pose proof (A 46) as H46. pose proof (A 47) as H47. clear A.
       cbn [Catalogue.rule_holds] in *.
-      destruct H41 as (stf & rs & TR). pose proof TR as TR'. destruct TR' as (mep & TP & Hrun).
+      destruct H20 as (mep & TP). destruct (H41 mep TP) as (stf & rs & Hrun).
+      assert (TR : the_run cfg pv parent st0 b stf rs) by (exists mep; split; [exact TP | exact Hrun]).
       pose proof TP as TP'. destruct TP' as (s & Hs & Hfm). pose proof (find_me_addr _ _ _ Hfm) as Ha.
       exists (final_state (pv_pos pv) (ctx_of_header parent (b_header b)) stf), rs.
       split; [exact H12|]. split.
       { unfold header_rules. split; [exact H1|]. split; [exact H2|]. split; [exact H3|]. split; [exact H4|]. split; [exact H5|]. split; [exact H6|]. split; [exact H7|]. split; [exact H8|]. split; [exact H9|]. split; [exact H10 | exact H11]. }
       exists s, mep. split.
-      { unfold proposer_rules. split; [exact Hs|]. split; [exact Hfm|]. split; [rewrite <- Ha; exact (H21 _ TP)|].
+      { unfold proposer_rules. split; [exact Hs|]. split; [exact Hfm|].
+        split; [apply (is_the_time_iff_owner _ _ _ _ _ _ _ _ HT Hfm); split; [exact H1|]; split; [exact H2|]; rewrite <- Ha; exact (H21 _ TP)|].
         split; [exact (H22 _ TP)|]. intros Hpos bnf Hl. exact (H23 Hpos _ _ Hs Hl). }
       split; [exact H30|]. split.
       { unfold body_rules. repeat split; assumption. }
@@ -482,15 +511,36 @@ Section Proofs.
   Qed.
 
   (* the property-level statement: the block is accepted iff every catalogue rule holds *)
-  Theorem accept_iff_rules_lemma cfg pv parent st0 b now : wf_gas parent b ->
+  Theorem accept_iff_rules_lemma cfg pv parent st0 b now : 0 < c_interval cfg -> wf_gas parent b ->
     (exists st2 rcs, process cfg pv parent st0 b now = Accepted State st2 rcs) <-> all_rules cfg pv parent st0 b now.
   Proof.
-    intros W. rewrite <- accept_cond_iff_rules. split; intros (st2 & rcs & H); exists st2, rcs; apply (process_accept_iff _ _ _ _ _ _ _ _ W); exact H.
+    intros HT W. rewrite <- (accept_cond_iff_rules _ _ _ _ _ _ HT). split; intros (st2 & rcs & H); exists st2, rcs; apply (process_accept_iff _ _ _ _ _ _ _ _ W); exact H.
   Qed.
 
   (* ---------------------------------------------------------------- classes of rejection *)
   Definition parent_sane (cfg : config) (parent : header) : Prop :=
     base_fee_nil_deref cfg parent = false /\ expected_base_fee cfg parent <> BfPanics.
+
+  (* parent_sane is an invariant of accepted chains: a header that passed the header rules (as a child of its own parent)
+     and whose gas limit is below the uint64 wrap of gasLimit*75 is a sane parent.  The bound is a premise: the gas limit
+     may rise by 1/1024 per block, so no chain invariant keeps it below (2^64-1)/75 ~ 2.4e17 (about 23 000 maximal
+     upward steps above any deployed value). *)
+  Theorem accepted_parent_is_sane cfg gp parent now :
+    header_rules cfg gp parent now -> h_number parent = h_number gp + 1 -> h_number parent + 1 < 4294967296 ->
+    (Z.of_N (h_gas_limit parent) <= max_nowrap_gas_limit)%Z -> parent_sane cfg parent.
+  Proof.
+    intros (_ & _ & _ & _ & _ & (Hfloor & _) & _ & _ & _ & (Hb1 & Hb2)) Hn Hlt Hgl.
+    unfold parent_sane, base_fee_nil_deref, expected_base_fee. rewrite <- Hn in Hb1, Hb2. split.
+    - destruct (N.ltb_spec (c_galactica cfg) (h_number parent + 1)) as [H|H]; [|reflexivity]. cbn [andb].
+      destruct (Hb2 ltac:(lia)) as (bf & E & _). rewrite E. reflexivity.
+    - unfold calc_base_fee. rewrite Z.mod_small by (unfold BaseFee.Model.two32; lia).
+      destruct (_ <? _)%Z; [discriminate|]. destruct (_ =? _)%Z; [discriminate|].
+      rewrite gas_target_nowrap by lia.
+      destruct (_ =? _)%Z; [discriminate|].
+      assert (T : (0 < Z.of_N (h_gas_limit parent) * 75 / 100)%Z) by lia.
+      destruct (Z.eqb_spec (Z.of_N (h_gas_limit parent) * 75 / 100) 0); [lia|].
+      destruct (_ >? _)%Z; discriminate.
+  Qed.
 
   Lemma validate_header_class cfg parent h now v : parent_sane cfg parent ->
     validate_header cfg parent h now = v ->
@@ -571,23 +621,40 @@ Section Proofs.
       + destruct (negb _); [intros E; inversion E; exact I | discriminate].
     - intros E. inversion E; subst bad. apply verify_txs_class in Ev. destruct Ev as [C|[[r ->] Hr]].
       + destruct v; try discriminate; exact I.
-      + left. cbn [Catalogue.rule_holds]. intros (stf & rs & mep' & T1 & T2).
-        apply (the_proposer_unique pv b s mep mep' P1 P2) in T1. subst mep'.
+      + left. cbn [Catalogue.rule_holds]. intros C.
+        assert (TP : Catalogue.the_proposer pv b mep) by (exists s; auto).
+        destruct (C mep TP) as (stf & rs & T2).
         unfold start_state, updates_and_score in T2. rewrite Hr in T2. discriminate.
   Qed.
 
   (* a single departure from a valid block: exactly one catalogue rule fails (crypto reports unchanged or not: they are
      part of the rules) => consensus-critical rejection, unless the failing rule is one the code classes otherwise *)
+  (* ANY breach (one rule or several) of a block that is not from the future and whose transactions and reward hook
+     execute is rejected with a consensus-critical error *)
+  Theorem rule_breach_rejected_critical_lemma cfg pv parent st0 b now :
+    0 < c_interval cfg -> wf_gas parent b -> parent_sane cfg parent ->
+    ~ all_rules cfg pv parent st0 b now ->
+    rule_holds cfg pv parent st0 b now 3 -> rule_holds cfg pv parent st0 b now 41 -> rule_holds cfg pv parent st0 b now 46 ->
+    exists r, process cfg pv parent st0 b now = Rejected State (Critical r).
+  Proof.
+    intros HT W Sane Hn H3 H41 H46.
+    destruct (process cfg pv parent st0 b now) as [st2 rcs|v] eqn:Ep.
+    - exfalso. apply Hn. apply (accept_iff_rules_lemma _ _ _ _ _ _ HT W). exists st2, rcs. exact Ep.
+    - pose proof (process_reject_class _ _ _ _ _ _ _ Sane Ep) as C.
+      destruct v as [| |r|r|]; try contradiction; [exists r; reflexivity|].
+      exfalso. destruct C as [C|C]; apply C; assumption.
+  Qed.
+
   Theorem single_mutation_rejected_lemma cfg pv parent st0 b now i :
-    wf_gas parent b -> parent_sane cfg parent ->
+    0 < c_interval cfg -> wf_gas parent b -> parent_sane cfg parent ->
     ~ rule_holds cfg pv parent st0 b now i ->
     (forall j, j <> i -> rule_holds cfg pv parent st0 b now j) ->
     non_critical_rule i = false ->
     exists r, process cfg pv parent st0 b now = Rejected State (Critical r).
   Proof.
-    intros W Sane Hi Hothers Hnc.
+    intros HT W Sane Hi Hothers Hnc.
     destruct (process cfg pv parent st0 b now) as [st2 rcs|v] eqn:Ep.
-    - exfalso. apply Hi. apply (accept_iff_rules_lemma _ _ _ _ _ _ W). exists st2, rcs. exact Ep.
+    - exfalso. apply Hi. apply (accept_iff_rules_lemma _ _ _ _ _ _ HT W). exists st2, rcs. exact Ep.
     - pose proof (process_reject_class _ _ _ _ _ _ _ Sane Ep) as C.
       unfold non_critical_rule in Hnc. apply orb_false_iff in Hnc. destruct Hnc as [Hnc H46].
       apply orb_false_iff in Hnc. destruct Hnc as [H3 H41].
@@ -599,29 +666,36 @@ Section Proofs.
   Qed.
 
   (* a rejected block whose class is not critical names which rule failed *)
-  Theorem rejected_not_accepting cfg pv parent st0 b now v : wf_gas parent b ->
+  Theorem rejected_not_accepting cfg pv parent st0 b now v : 0 < c_interval cfg -> wf_gas parent b ->
     process cfg pv parent st0 b now = Rejected State v -> ~ all_rules cfg pv parent st0 b now.
   Proof.
-    intros W E A. apply (accept_iff_rules_lemma _ _ _ _ _ _ W) in A. destruct A as (? & ? & A). congruence.
+    intros HT W E A. apply (accept_iff_rules_lemma _ _ _ _ _ _ HT W) in A. destruct A as (? & ? & A). congruence.
   Qed.
 
   (* ---------------------------------------------------------------- node import *)
   Notation import := (import State exec apply_updates rewards sanity root_of_state root_of_receipts root_of_txs has_tx find_meta).
 
-  Theorem rejected_leaves_no_trace_lemma cfg pv parent st0 rp b now conflicts best rp' v :
-    import cfg pv parent st0 rp b now conflicts best = (rp', Rejected State v) -> rp' = rp.
+  (* REMARK (follows the shape of executeAndCommitBlock in the model: every write is issued after cons.Process returned nil):
+     a rejected block issues no repository write, hence leaves the repository as it was.  On the implementation this is
+     what the harness tests (Process level and on a real node.Node); node-local state outside the repository (the
+     validators cache — Remove(parent) also runs for rejected blocks —, the seeder cache) is not part of `repo`. *)
+  Lemma rejected_issues_no_write known ps ba v b conflicts best :
+    import_writes State known ps ba (Rejected State v) b conflicts best = [].
+  Proof. unfold import_writes. destruct known, ps, ba; reflexivity. Qed.
+
+  Theorem rejected_leaves_no_trace_lemma cfg pv parent st0 rp b now conflicts known ps ba best rp' v :
+    import cfg pv parent st0 rp b now conflicts known ps ba best = (rp', Rejected State v) -> rp' = rp.
   Proof.
-    unfold Body.import. destruct (process cfg pv parent st0 b now); intros E; inversion E; reflexivity.
+    unfold Body.import. intros E. inversion E as [[E1 E2]]. rewrite E2. rewrite rejected_issues_no_write. reflexivity.
   Qed.
 
-  Theorem accepted_import_adds_exactly cfg pv parent st0 rp b now conflicts best rp' st rcs :
-    import cfg pv parent st0 rp b now conflicts best = (rp', Accepted State st rcs) ->
+  Theorem accepted_import_writes cfg pv parent st0 rp b now conflicts best rp' st rcs :
+    0 < c_interval cfg -> wf_gas parent b ->
+    import cfg pv parent st0 rp b now conflicts false true true best = (rp', Accepted State st rcs) ->
     rp_blocks State rp' = (b, rcs, conflicts) :: rp_blocks State rp /\ rp_states State rp' = st :: rp_states State rp /\
-    all_rules cfg pv parent st0 b now \/ ~ wf_gas parent b.
+    all_rules cfg pv parent st0 b now.
   Proof.
-    unfold Body.import. destruct (process cfg pv parent st0 b now) as [st2 rcs2|] eqn:Ep; intros E; inversion E; subst.
-    cbn. destruct (N.ltb_spec (h_gas_limit (b_header b)) two64); [|right; intros [C _]; lia].
-    destruct (N.ltb_spec (h_gas_limit parent) two64); [|right; intros [_ C]; lia].
-    left. repeat split. apply accept_iff_rules_lemma; [split; assumption|]. eauto.
+    intros HT W. unfold Body.import. intros E. inversion E as [[E1 E2]]. rewrite E2. cbn.
+    repeat split. apply (accept_iff_rules_lemma _ _ _ _ _ _ HT W). eauto.
   Qed.
 End Proofs.
